@@ -134,7 +134,55 @@ fn run_max_chunk(rep: &mut Report, rng: &mut Rng) {
     }
 }
 
+/// compressible / incompressible (> 64 KiB) / compressible …: the LZMA2 layer emits stored chunks followed by
+/// state-reset-only LZMA chunks (control 0xA0..0xBF); both directions, raw LZMA2 and .xz
+fn run_state_resets(rep: &mut Report, rng: &mut Rng, thorough: bool) {
+    for i in 0..(if thorough { 12 } else { 2 }) {
+        let mut r = rng.fork();
+        let mut data = vec![];
+        for _ in 0..r.range(3, 7) {
+            let tl = r.range(5_000, 30_000) as usize;
+            data.extend(gen_data(&mut r, "text", tl));
+            let l = r.range(70_000, 130_000) as usize;
+            data.extend(r.bytes(l));
+        }
+        data.extend(gen_data(&mut r, "text", 20_000));
+        let cap = data.len() + 64;
+        let lz = LzOpts { dict: 1 << 20, lc: 3, lp: 0, pb: 2, normal: i % 2 == 0, nice: 64, bt4: i % 2 == 0, depth: 0, preset: None };
+        let detail = |dir: &str| json!({"direction": dir, "stratum": "state-resets", "data_len": data.len(), "data_fnv": fnv(&data), "opts": lz.json(), "case": i});
+        rep.count("stratum.state-resets");
+        // ours -> liblzma
+        match lzma2_compress(&data, &lz, None, &[data.len()], 0) {
+            Outcome::Ok(c) => {
+                let has_reset_only = { let mut p = 0usize; let mut prev_stored = false; let mut seen = false; while p < c.len() && c[p] != 0 { let ctl = c[p]; if ctl >= 0x80 { if prev_stored && (0xA0..0xC0).contains(&ctl) { seen = true; } prev_stored = false; let comp = ((c[p + 3] as usize) << 8) + c[p + 4] as usize + 1; p += 5 + if ctl >= 0xC0 { 1 } else { 0 } + comp; } else { prev_stored = true; p += 3 + ((c[p + 1] as usize) << 8) + c[p + 2] as usize + 1; } } seen };
+                rep.count(if has_reset_only { "state-resets.present" } else { "state-resets.absent" });
+                match lref::lzma2_raw_decode(&c, lz.dict, cap) {
+                    Ok(out) if out == data => {}
+                    Ok(_) => rep.fail("ref-lzma2-different-data", "liblzma decodes our LZMA2 to different data (state-reset stratum)", detail("ours->liblzma")),
+                    Err(e) => rep.fail("ref-lzma2-rejects", &format!("liblzma rejects our LZMA2 (state-reset stratum): {e}"), detail("ours->liblzma")),
+                }
+            }
+            other => rep.fail(&format!("lzma2-write-{}", other.class()), &other.describe(), detail("ours->liblzma")),
+        }
+        // liblzma -> ours
+        if let Ok(mut l) = LzmaOptions::new_preset(if i % 2 == 0 { 6 } else { 1 }) {
+            l.dict_size(1 << 20);
+            let mut f = Filters::new();
+            f.lzma2(&l);
+            if let Ok(c) = Stream::new_raw_encoder(&f).map_err(|e| format!("{e:?}")).and_then(|s| lref::run(s, &data, data.len() * 2 + 65536)) {
+                match lzma2_decompress(&c, 1 << 20, None, &[65536], cap) {
+                    Outcome::Ok((out, used)) if out == data && used == c.len() => {}
+                    Outcome::Ok(_) => rep.fail("ours-lzma2-different-data", "we decode liblzma's LZMA2 to different data (state-reset stratum)", detail("liblzma->ours")),
+                    other => rep.fail("ours-lzma2-rejects", &format!("we reject liblzma's LZMA2 (state-reset stratum): {}", other.describe()), detail("liblzma->ours")),
+                }
+            }
+        }
+        rep.case(format!("state-resets:{}", i % 2), true, || detail("both"));
+    }
+}
+
 pub fn run(rep: &mut Report, rng: &mut Rng, thorough: bool) {
+    run_state_resets(rep, rng, thorough);
     run_max_chunk(rep, rng);
     run_crafted(rep, rng, thorough);
     let n = if thorough { 2000 } else { 160 };
